@@ -454,9 +454,14 @@ func (s *Server) Flush(ctx context.Context, req *spb.FlushRequest) (*spb.FlushRe
 	case *spb.FlushRequest_All:
 		nis = s.masterRIB.KnownNetworkInstances()
 	case *spb.FlushRequest_Name:
+		if t.Name == "" {
+			return nil, addFlushErrDetailsOrReturn(status.Newf(codes.InvalidArgument, `invalid network instance name ""`), &spb.FlushResponseError{
+				Status: spb.FlushResponseError_INVALID_NETWORK_INSTANCE,
+			})
+		}
 		if _, ok := s.masterRIB.NetworkInstanceRIB(t.Name); !ok {
 			return nil, addFlushErrDetailsOrReturn(status.Newf(codes.InvalidArgument, "could not find network instance %s", t.Name), &spb.FlushResponseError{
-				Status: spb.FlushResponseError_INVALID_NETWORK_INSTANCE,
+				Status: spb.FlushResponseError_NO_SUCH_NETWORK_INSTANCE,
 			})
 		}
 		nis = []string{t.Name}
